@@ -418,8 +418,7 @@ class NFANode(object):
     transitions : {symbol: set([:py:class:`NFANode`, ...]), ...}
         The transition rules from this node.
 
-        Empty transitions are listed under the symbol ``None`` and are always
-        bidirectional.
+        Empty transitions are listed under the symbol ``None``.
     """
 
     def __init__(self):
@@ -438,6 +437,13 @@ class NFANode(object):
             dest_node.transitions[symbol].add(self)
         else:
             self.transitions[symbol].add(dest_node)
+
+    def add_empty_transition(self, dest_node):
+        """
+        Add a directed (one-way) empty transition from this node to the
+        specified destination.
+        """
+        self.transitions[None].add(dest_node)
 
     def equivalent_nodes(self):
         """
@@ -502,7 +508,7 @@ class NFA(object):
             nfa_a = cls.from_ast(ast.a)
             nfa_b = cls.from_ast(ast.b)
 
-            nfa_a.final.add_transition(nfa_b.start)
+            nfa_a.final.add_empty_transition(nfa_b.start)
 
             return cls(nfa_a.start, nfa_b.final)
         elif isinstance(ast, Symbol):
@@ -515,11 +521,11 @@ class NFA(object):
             nfa_a = cls.from_ast(ast.a)
             nfa_b = cls.from_ast(ast.b)
 
-            nfa.start.add_transition(nfa_a.start)
-            nfa.start.add_transition(nfa_b.start)
+            nfa.start.add_empty_transition(nfa_a.start)
+            nfa.start.add_empty_transition(nfa_b.start)
 
-            nfa_a.final.add_transition(nfa.final)
-            nfa_b.final.add_transition(nfa.final)
+            nfa_a.final.add_empty_transition(nfa.final)
+            nfa_b.final.add_empty_transition(nfa.final)
 
             return nfa
         elif isinstance(ast, Star):
@@ -527,11 +533,11 @@ class NFA(object):
 
             sub_nfa = cls.from_ast(ast.expr)
 
-            nfa.start.add_transition(nfa.final)
-            nfa.start.add_transition(sub_nfa.start)
+            nfa.start.add_empty_transition(nfa.final)
+            nfa.start.add_empty_transition(sub_nfa.start)
 
-            sub_nfa.final.add_transition(sub_nfa.start)
-            sub_nfa.final.add_transition(nfa.final)
+            sub_nfa.final.add_empty_transition(sub_nfa.start)
+            sub_nfa.final.add_empty_transition(nfa.final)
 
             return nfa
 
